@@ -7,6 +7,9 @@
 //               [--threads N] [--only <part>] [--replay-arg <s>]
 //
 // No randomness, no wall clock, no address-dependent decisions or counts.
+// Every call into the code under test runs in a forked single-threaded worker
+// process (fixed slices of numbered cases); a worker that dies is turned into
+// a `<property>/<domain>/crash` violation for the case it had announced.
 
 // Should be the first include (repo convention)
 #include "global.hpp"
@@ -16,6 +19,7 @@
 
 #include <algorithm>
 #include <array>
+#include <cerrno>
 #include <cinttypes>
 #include <csetjmp>
 #include <csignal>
@@ -24,16 +28,19 @@
 #include <cstdio>
 #include <cstdlib>
 #include <cstring>
+#include <deque>
 #include <functional>
 #include <limits>
 #include <span>
 #include <string>
 #include <string_view>
-#include <thread>
 #include <type_traits>
 #include <vector>
 
+#include <poll.h>
 #include <sys/mman.h>
+#include <sys/types.h>
+#include <sys/wait.h>
 #include <unistd.h>
 
 namespace {
@@ -160,7 +167,15 @@ inline int ref_cmp_num(T a, T b) noexcept {
 inline int indep_compare(const unsigned char* a, std::size_t al,
                          const unsigned char* b, std::size_t bl) noexcept {
   std::size_t i = 0;
-  while (i < al && i < bl) {
+  const std::size_t n = al < bl ? al : bl;
+  while (i + 8 <= n) {  // skip equal 8-byte groups, then decide bytewise
+    std::uint64_t wa, wb;
+    std::memcpy(&wa, a + i, 8);
+    std::memcpy(&wb, b + i, 8);
+    if (wa != wb) break;
+    i += 8;
+  }
+  while (i < n) {
     if (a[i] != b[i]) return (a[i] < b[i]) ? -1 : 1;
     ++i;
   }
@@ -388,7 +403,7 @@ struct JObj {
 };
 
 // ---------------------------------------------------------------------------
-// Violations, parts, threading
+// Violations, parts, contained execution
 // ---------------------------------------------------------------------------
 
 constexpr std::size_t MAX_VIOL = 20;
@@ -404,22 +419,267 @@ struct Part {
   std::uint64_t checks{0};       // pairs / round trips checked
   std::uint64_t classes{0};      // reference-order classes or distinct values
   std::uint64_t transitions{0};  // encoder / decoder calls
+  std::uint64_t crashes{0};      // cases in which the code under test crashed
   bool exhaustive{true};
   std::vector<Viol> viols;       // first MAX_VIOL in deterministic order
   std::uint64_t vtotal{0};
   std::string sample;            // JSON object or empty
 };
 
-// Per-thread accumulator, merged deterministically.
-struct alignas(128) Acc {
+// Accumulator of one executed range of cases, merged deterministically.
+struct Acc {
   std::uint64_t checks{0}, classes{0}, transitions{0}, vtotal{0};
   std::vector<Viol> viols;
   std::string sample;
+  std::string blob;  // part-specific payload returned to the parent
   bool want_more() const { return viols.size() < MAX_VIOL; }
 };
 
-void merge_into(Part& p, std::vector<Acc>& accs) {
-  for (auto& a : accs) {
+// ---- (de)serialisation of an Acc for the pipe between worker and parent ----
+struct Writer {
+  std::string b;
+  void u64(std::uint64_t v) { b.append(reinterpret_cast<const char*>(&v), sizeof v); }
+  void str(const std::string& s) { u64(s.size()); b += s; }
+};
+struct Reader {
+  const std::string& b;
+  std::size_t pos{0};
+  bool ok{true};
+  std::uint64_t u64() {
+    std::uint64_t v = 0;
+    if (pos + sizeof v > b.size()) { ok = false; return 0; }
+    std::memcpy(&v, b.data() + pos, sizeof v);
+    pos += sizeof v;
+    return v;
+  }
+  std::string str() {
+    const std::uint64_t n = u64();
+    if (!ok || n > b.size() - pos) { ok = false; return {}; }
+    std::string s = b.substr(pos, static_cast<std::size_t>(n));
+    pos += static_cast<std::size_t>(n);
+    return s;
+  }
+};
+void put_acc(Writer& w, const Acc& a) {
+  w.u64(0x41434331);  // magic
+  w.u64(a.checks); w.u64(a.classes); w.u64(a.transitions); w.u64(a.vtotal);
+  w.u64(a.viols.size());
+  for (const auto& v : a.viols) {
+    w.u64(v.k1); w.u64(v.k2);
+    w.str(v.what); w.str(v.sig); w.str(v.replay); w.str(v.detail);
+  }
+  w.str(a.sample);
+  w.str(a.blob);
+  w.u64(0x454e4421);  // end marker
+}
+bool get_acc(const std::string& buf, Acc& a) {
+  Reader r{buf};
+  if (r.u64() != 0x41434331) return false;
+  a.checks = r.u64(); a.classes = r.u64(); a.transitions = r.u64(); a.vtotal = r.u64();
+  const std::uint64_t n = r.u64();
+  if (!r.ok || n > 4 * MAX_VIOL) return false;
+  for (std::uint64_t i = 0; i < n; ++i) {
+    Viol v;
+    v.k1 = r.u64(); v.k2 = r.u64();
+    v.what = r.str(); v.sig = r.str(); v.replay = r.str(); v.detail = r.str();
+    a.viols.push_back(std::move(v));
+  }
+  a.sample = r.str();
+  a.blob = r.str();
+  return r.u64() == 0x454e4421 && r.ok && r.pos == buf.size();
+}
+
+// ---- contained execution -------------------------------------------------
+// Every call into the code under test happens in a forked, single-threaded
+// worker process. The cases of a part are numbered 0..ncases-1 and cut into
+// fixed slices (independent of --threads, which only bounds the number of
+// concurrently running workers). A worker announces the case it is about to
+// evaluate in a shared-memory slot; if it dies, the parent knows the crashing
+// case, re-runs the cases before it and continues after it in fresh workers.
+
+constexpr std::uint64_t PROGRESS_NONE = ~std::uint64_t{0};
+constexpr std::size_t BOARD_SLOTS = 256;
+constexpr std::size_t BOARD_STRIDE = 8;  // 64 bytes per slot
+volatile std::uint64_t* g_board = nullptr;
+
+void board_setup() {
+  void* p = mmap(nullptr, BOARD_SLOTS * BOARD_STRIDE * sizeof(std::uint64_t), PROT_READ | PROT_WRITE,
+                 MAP_SHARED | MAP_ANONYMOUS, -1, 0);
+  if (p == MAP_FAILED) die("mmap of the progress board failed");
+  g_board = static_cast<volatile std::uint64_t*>(p);
+}
+
+using RangeFn = std::function<void(std::uint64_t lo, std::uint64_t hi, Acc& acc,
+                                   volatile std::uint64_t* progress)>;
+
+struct Piece {
+  std::uint64_t lo{0}, hi{0};
+  Acc acc;
+};
+struct Crash {
+  std::uint64_t lo{0}, hi{0};  // the range the worker was executing
+  std::uint64_t at{0};         // the announced case (valid if in_case)
+  bool in_case{false};
+  bool by_signal{false};
+  int code{0};                 // signal number or exit status
+};
+struct Contained {
+  std::vector<Piece> pieces;   // sorted by lo
+  std::vector<Crash> crashes;  // sorted by (at, lo)
+  bool lost{false};            // some cases could not be evaluated at all
+};
+
+std::string crash_cause(const Crash& c) {
+  return c.by_signal ? "signal " + std::to_string(c.code) : "exit status " + std::to_string(c.code);
+}
+
+Contained run_contained(int workers, std::uint64_t ncases, std::uint64_t nslices, const RangeFn& fn) {
+  Contained out;
+  if (ncases == 0) return out;
+  if (g_board == nullptr) board_setup();
+  if (nslices < 1) nslices = 1;
+  if (nslices > ncases) nslices = ncases;
+  if (workers < 1) workers = 1;
+  if (static_cast<std::size_t>(workers) > BOARD_SLOTS) workers = static_cast<int>(BOARD_SLOTS);
+
+  struct Slice {
+    std::deque<std::pair<std::uint64_t, std::uint64_t>> todo;
+    unsigned crashes{0};
+    bool running{false};
+  };
+  std::vector<Slice> slices(static_cast<std::size_t>(nslices));
+  const std::uint64_t chunk = (ncases + nslices - 1) / nslices;
+  for (std::uint64_t s = 0; s < nslices; ++s) {
+    const std::uint64_t lo = std::min(ncases, s * chunk), hi = std::min(ncases, lo + chunk);
+    if (lo < hi) slices[static_cast<std::size_t>(s)].todo.emplace_back(lo, hi);
+  }
+  struct Active {
+    pid_t pid;
+    int fd;
+    std::size_t slice;
+    std::size_t slot;
+    std::uint64_t lo, hi;
+    std::string buf;
+  };
+  std::vector<Active> active;
+  std::vector<bool> slot_used(static_cast<std::size_t>(workers), false);
+  std::size_t next_slice = 0;
+
+  auto start_some = [&] {
+    while (active.size() < static_cast<std::size_t>(workers)) {
+      std::size_t pick = slices.size();
+      for (std::size_t k = 0; k < slices.size(); ++k) {
+        const std::size_t s = (next_slice + k) % slices.size();
+        if (!slices[s].running && !slices[s].todo.empty()) { pick = s; break; }
+      }
+      if (pick == slices.size()) return;
+      next_slice = pick + 1;
+      Slice& sl = slices[pick];
+      const auto range = sl.todo.front();
+      sl.todo.pop_front();
+      sl.running = true;
+      std::size_t slot = 0;
+      while (slot_used[slot]) ++slot;
+      slot_used[slot] = true;
+      volatile std::uint64_t* prog = g_board + slot * BOARD_STRIDE;
+      *prog = PROGRESS_NONE;
+      int fds[2];
+      if (pipe(fds) != 0) die("pipe failed");
+      const pid_t pid = fork();
+      if (pid < 0) die("fork failed");
+      if (pid == 0) {
+        close(fds[0]);
+        for (const auto& a : active) close(a.fd);
+        Acc acc;
+        fn(range.first, range.second, acc, prog);
+        Writer w;
+        put_acc(w, acc);
+        std::size_t done = 0;
+        while (done < w.b.size()) {
+          const ssize_t n = write(fds[1], w.b.data() + done, w.b.size() - done);
+          if (n < 0) { if (errno == EINTR) continue; _exit(3); }
+          done += static_cast<std::size_t>(n);
+        }
+        close(fds[1]);
+        _exit(0);
+      }
+      close(fds[1]);
+      active.push_back(Active{pid, fds[0], pick, slot, range.first, range.second, {}});
+    }
+  };
+
+  auto finish = [&](std::size_t idx) {
+    Active a = std::move(active[idx]);
+    active.erase(active.begin() + static_cast<std::ptrdiff_t>(idx));
+    close(a.fd);
+    int status = 0;
+    while (waitpid(a.pid, &status, 0) < 0) {
+      if (errno != EINTR) die("waitpid failed");
+    }
+    const std::uint64_t at = g_board[a.slot * BOARD_STRIDE];
+    slot_used[a.slot] = false;
+    Slice& sl = slices[a.slice];
+    sl.running = false;
+    if (WIFEXITED(status) && WEXITSTATUS(status) == 2) die("a worker reported an internal error");
+    Piece pc;
+    pc.lo = a.lo;
+    pc.hi = a.hi;
+    if (WIFEXITED(status) && WEXITSTATUS(status) == 0 && get_acc(a.buf, pc.acc)) {
+      out.pieces.push_back(std::move(pc));
+      return;
+    }
+    Crash c;
+    c.lo = a.lo;
+    c.hi = a.hi;
+    c.at = at;
+    c.in_case = (at != PROGRESS_NONE && at >= a.lo && at < a.hi);
+    c.by_signal = WIFSIGNALED(status);
+    c.code = c.by_signal ? WTERMSIG(status) : (WIFEXITED(status) ? WEXITSTATUS(status) : -1);
+    out.crashes.push_back(c);
+    ++sl.crashes;
+    if (!c.in_case) { out.lost = true; return; }  // cannot tell where: the range is lost
+    if (sl.crashes > MAX_VIOL) {                  // give up on the rest of this slice
+      out.lost = true;
+      sl.todo.clear();
+      if (a.lo < at) sl.todo.emplace_back(a.lo, at);  // the cases before it are still evaluated
+      return;
+    }
+    if (at + 1 < a.hi) sl.todo.emplace_front(at + 1, a.hi);
+    if (a.lo < at) sl.todo.emplace_front(a.lo, at);
+  };
+
+  for (;;) {
+    start_some();
+    if (active.empty()) break;
+    std::vector<pollfd> pf(active.size());
+    for (std::size_t i = 0; i < active.size(); ++i) {
+      pf[i].fd = active[i].fd;
+      pf[i].events = POLLIN;
+      pf[i].revents = 0;
+    }
+    if (poll(pf.data(), pf.size(), -1) < 0) {
+      if (errno == EINTR) continue;
+      die("poll failed");
+    }
+    for (std::size_t i = active.size(); i-- > 0;) {
+      if (pf[i].revents == 0) continue;
+      char tmp[65536];
+      const ssize_t n = read(active[i].fd, tmp, sizeof tmp);
+      if (n > 0) { active[i].buf.append(tmp, static_cast<std::size_t>(n)); continue; }
+      if (n < 0 && (errno == EINTR || errno == EAGAIN)) continue;
+      finish(i);
+    }
+  }
+  std::sort(out.pieces.begin(), out.pieces.end(), [](const Piece& x, const Piece& y) { return x.lo < y.lo; });
+  std::sort(out.crashes.begin(), out.crashes.end(), [](const Crash& x, const Crash& y) {
+    return x.at != y.at ? x.at < y.at : x.lo < y.lo;
+  });
+  return out;
+}
+
+void merge_into(Part& p, std::vector<Piece>& pieces) {
+  for (auto& pc : pieces) {
+    Acc& a = pc.acc;
     p.checks += a.checks;
     p.classes += a.classes;
     p.transitions += a.transitions;
@@ -431,15 +691,6 @@ void merge_into(Part& p, std::vector<Acc>& accs) {
     return x.k1 != y.k1 ? x.k1 < y.k1 : x.k2 < y.k2;
   });
   if (p.viols.size() > MAX_VIOL) p.viols.resize(MAX_VIOL);
-}
-
-template <class F>
-void parallel(int threads, F&& f) {
-  std::vector<std::thread> th;
-  th.reserve(static_cast<std::size_t>(threads));
-  for (int t = 1; t < threads; ++t) th.emplace_back([&f, t] { f(t); });
-  f(0);
-  for (auto& x : th) x.join();
 }
 
 // ---------------------------------------------------------------------------
@@ -1009,7 +1260,132 @@ constexpr std::uint64_t full_count() noexcept {
   else return std::uint64_t{1} << (8 * sizeof(T));
 }
 
-constexpr std::uint64_t WALK_BLOCKS = 1024;  // work units of the value walks
+struct Opt {
+  std::string tier, out, only, replay, property;
+  int threads{16};
+  bool has_replay{false};
+};
+
+bool want(const Opt& o, const std::string& name) {
+  if (o.only.empty() || o.only == name) return true;
+  return name.rfind(o.only + "/", 0) == 0;
+}
+
+inline std::uint64_t clamp_slices(std::uint64_t work, std::uint64_t per_slice) {
+  const std::uint64_t s = work / per_slice;
+  return s < 1 ? 1 : (s > 64 ? 64 : s);
+}
+
+// Domain label used in crash signatures: the part name up to the first '/'.
+std::string dom_of(const std::string& part_name) { return part_name.substr(0, part_name.find('/')); }
+
+// ---- crashes of the code under test -> violations -------------------------
+void eval_replay(const std::string& property, const std::string& replay, Gen& g);  // below
+std::string replay_dom(const std::string& replay);                                  // below
+
+struct Single {
+  bool crashed{false};
+  Crash crash;
+  Acc acc;
+};
+// Evaluate one replayable case in a fresh worker process.
+Single run_single(const std::string& property, const std::string& replay) {
+  const RangeFn fn = [&](std::uint64_t, std::uint64_t, Acc& acc, volatile std::uint64_t* prog) {
+    *prog = 0;
+    Gen g;
+    g.want_sample = true;
+    eval_replay(property, replay, g);
+    acc.checks = 1;
+    acc.transitions = g.calls;
+    acc.vtotal = g.out.empty() ? 0 : 1;
+    acc.sample = g.sample;
+    for (auto& v : g.out)
+      if (acc.want_more()) acc.viols.push_back(std::move(v));
+  };
+  Contained c = run_contained(1, 1, 1, fn);
+  Single s;
+  if (!c.crashes.empty() || c.pieces.empty()) {
+    s.crashed = true;
+    if (!c.crashes.empty()) s.crash = c.crashes[0];
+  } else {
+    s.acc = std::move(c.pieces[0].acc);
+  }
+  return s;
+}
+
+std::string shorten(const std::string& s, std::size_t n = 160) {
+  return s.size() <= n ? s : s.substr(0, n) + "...";
+}
+
+Viol crash_viol(const std::string& prop, const std::string& dom, const std::string& replay,
+                const std::string& cause, bool reproduced_alone, std::uint64_t k1) {
+  Viol v;
+  v.k1 = k1;
+  v.what = "the code under test crashed (" + cause + ") while evaluating case " + shorten(replay);
+  v.sig = prop + "/" + dom + "/crash";
+  v.replay = replay;
+  v.detail = JObj{}.str("cause", cause).boolean("crashed_when_run_alone", reproduced_alone).done();
+  return v;
+}
+
+// Account for the crashes of a contained run of `part`. `case_replay(c)` gives
+// the replay argument of case c. Each crashing case is re-evaluated alone in a
+// fresh worker: if it crashes again it is a `<prop>/<dom>/crash` violation whose
+// replay re-executes exactly that case; if it completes, its ordinary findings
+// (e.g. garbage bytes) are taken instead.
+void account_crashes(const std::string& prop, const std::string& fallback_dom, Part& part,
+                     const Contained& res,
+                     const std::function<std::string(std::uint64_t)>& case_replay) {
+  if (res.lost) part.exhaustive = false;
+  (void)fallback_dom;
+  std::size_t confirmed = 0;
+  for (const Crash& c : res.crashes) {
+    ++part.crashes;
+    ++part.vtotal;
+    if (!c.in_case) {
+      part.exhaustive = false;
+      const std::string rp = case_replay(c.lo);
+      Viol v = crash_viol(prop, replay_dom(rp), rp, crash_cause(c), false, c.lo);
+      v.what = "a worker died (" + crash_cause(c) + ") outside any case while executing cases " +
+               std::to_string(c.lo) + ".." + std::to_string(c.hi) + " of " + part.name;
+      part.viols.push_back(std::move(v));
+      continue;
+    }
+    ++part.checks;
+    const std::string replay = case_replay(c.at);
+    if (confirmed >= MAX_VIOL) continue;  // counted; not among the first reported anyway
+    ++confirmed;
+    const std::string dom = replay_dom(replay);  // same label a replay of this case will use
+    Single s = run_single(prop, replay);
+    if (s.crashed) {
+      part.viols.push_back(crash_viol(prop, dom, replay, crash_cause(s.crash), true, c.at));
+    } else if (!s.acc.viols.empty()) {
+      part.transitions += s.acc.transitions;
+      for (auto& v : s.acc.viols) { v.k1 = c.at; part.viols.push_back(std::move(v)); }
+    } else {
+      part.transitions += s.acc.transitions;
+      part.viols.push_back(crash_viol(prop, dom, replay, crash_cause(c), false, c.at));
+    }
+  }
+  // Reported order inside a part: up to MAX_VIOL/2 crash violations first (by
+  // case), then the other violations by case, then any further crashes.
+  auto is_crash = [](const Viol& v) {
+    return v.sig.size() >= 6 && v.sig.compare(v.sig.size() - 6, 6, "/crash") == 0;
+  };
+  std::stable_sort(part.viols.begin(), part.viols.end(), [](const Viol& x, const Viol& y) {
+    return x.k1 != y.k1 ? x.k1 < y.k1 : x.k2 < y.k2;
+  });
+  std::vector<Viol> first, rest, more;
+  for (auto& v : part.viols) {
+    if (!is_crash(v)) rest.push_back(std::move(v));
+    else if (first.size() < MAX_VIOL / 2) first.push_back(std::move(v));
+    else more.push_back(std::move(v));
+  }
+  part.viols = std::move(first);
+  for (auto& v : rest) part.viols.push_back(std::move(v));
+  for (auto& v : more) part.viols.push_back(std::move(v));
+  if (part.viols.size() > MAX_VIOL) part.viols.resize(MAX_VIOL);
+}
 
 // Small copy of an encoding produced on a fast path.
 struct SmallEnc {
@@ -1042,33 +1418,26 @@ void record_generic(Acc& acc, Gen& g, std::uint64_t k1, std::uint64_t k2, const 
 }
 
 // C11: walk N values given in reference order, check every adjacent pair.
+// Case p = the pair (value p, value p+1).
 template <class T, class F>
-Part c11_walk(const std::string& name, std::uint64_t N, F bits_at, int threads) {
+Part c11_walk(const Opt& o, const std::string& name, std::uint64_t N, F bits_at) {
   Part part;
   part.name = name;
   part.size = N;
-  if (N == 0) return part;
+  if (N < 2) return part;
   const std::uint64_t pairs = N - 1;
-  std::vector<Acc> accs(static_cast<std::size_t>(threads));
-  // Fixed blocks (independent of the thread count) dealt out round-robin, so
-  // that every emitted count is the same for any --threads.
-  const std::uint64_t chunk = (pairs + WALK_BLOCKS - 1) / WALK_BLOCKS;
   const std::uint64_t sample_at = pairs / 2;
   constexpr Kind K = Traits<T>::kind;
-  parallel(threads, [&](int t) {
-    Acc& acc = accs[static_cast<std::size_t>(t)];
-   for (std::uint64_t blk = static_cast<std::uint64_t>(t); blk < WALK_BLOCKS;
-        blk += static_cast<std::uint64_t>(threads)) {
-    const std::uint64_t lo = std::min(pairs, chunk * blk);
-    const std::uint64_t hi = std::min(pairs, lo + chunk);
-    if (lo >= hi) break;
+  const RangeFn fn = [&](std::uint64_t lo, std::uint64_t hi, Acc& acc, volatile std::uint64_t* prog) {
     std::uint64_t checks = 0, classes = 0, calls = 0;
+    *prog = lo;
     auto xb = bits_at(lo);
     T x = from_bits<T>(xb);
     SmallEnc ex, ey;
     fast_enc(x, ex);
     ++calls;
     for (std::uint64_t p = lo; p < hi; ++p) {
+      *prog = p;
       const auto yb = bits_at(p + 1);
       const T y = from_bits<T>(yb);
       fast_enc(y, ey);
@@ -1105,36 +1474,34 @@ Part c11_walk(const std::string& name, std::uint64_t N, F bits_at, int threads) 
     acc.checks += checks;
     acc.classes += classes;
     acc.transitions += calls;
-   }
-  });
-  merge_into(part, accs);
+  };
+  Contained res = run_contained(o.threads, pairs, clamp_slices(pairs, 16384), fn);
+  merge_into(part, res.pieces);
   part.classes += 1;  // the class of the first element
+  account_crashes("C11", kind_name[K], part, res, [&](std::uint64_t p) {
+    return "order:" + val_str(make_num(K, bits_at(p))) + ":" + val_str(make_num(K, bits_at(p + 1)));
+  });
   return part;
 }
 
-// C12: round trip every one of N values.
+// C12: round trip every one of N values. Case p = value p.
 template <class T, class F>
-Part c12_walk(const std::string& name, std::uint64_t N, F bits_at, int threads) {
+Part c12_walk(const Opt& o, const std::string& name, std::uint64_t N, F bits_at) {
   using U = typename Traits<T>::U;
   Part part;
   part.name = name;
   part.size = N;
-  std::vector<Acc> accs(static_cast<std::size_t>(threads));
-  const std::uint64_t chunk = (N + WALK_BLOCKS - 1) / WALK_BLOCKS;
+  if (N == 0) return part;
   const std::uint64_t sample_at = N / 2;
   constexpr Kind K = Traits<T>::kind;
   const U canon = static_cast<U>(g_canon_nan[K]);
-  parallel(threads, [&](int t) {
-    Acc& acc = accs[static_cast<std::size_t>(t)];
-   for (std::uint64_t blk = static_cast<std::uint64_t>(t); blk < WALK_BLOCKS;
-        blk += static_cast<std::uint64_t>(threads)) {
-    const std::uint64_t lo = std::min(N, chunk * blk);
-    const std::uint64_t hi = std::min(N, lo + chunk);
-    if (lo >= hi) break;
+  const RangeFn fn = [&](std::uint64_t lo, std::uint64_t hi, Acc& acc, volatile std::uint64_t* prog) {
+    *prog = lo;  // the reused encoders are set up as part of the first case
     ReusedEncoders re;
     std::uint64_t checks = 0, distinct = 0, calls = re.setup_calls;
     U prev = (lo > 0) ? bits_at(lo - 1) : U{0};
     for (std::uint64_t p = lo; p < hi; ++p) {
+      *prog = p;
       const U xb = bits_at(p);
       const T x = from_bits<T>(xb);
       distinct += (p == 0 || xb != prev) ? 1U : 0U;  // differs from its predecessor in the walk
@@ -1191,9 +1558,11 @@ Part c12_walk(const std::string& name, std::uint64_t N, F bits_at, int threads) 
     acc.checks += checks;
     acc.classes += distinct;
     acc.transitions += calls;
-   }
-  });
-  merge_into(part, accs);
+  };
+  Contained res = run_contained(o.threads, N, clamp_slices(N, 16384), fn);
+  merge_into(part, res.pieces);
+  account_crashes("C12", kind_name[K], part, res,
+                  [&](std::uint64_t p) { return "rt:" + val_str(make_num(K, bits_at(p))); });
   return part;
 }
 
@@ -1202,26 +1571,49 @@ Part c12_walk(const std::string& name, std::uint64_t N, F bits_at, int threads) 
 // ---------------------------------------------------------------------------
 
 struct Domain {
-  std::string label;             // e.g. "text", "tuple-int32-text-int32"
+  std::string label;                 // e.g. "text", "tuple-int32-text-int32"
   std::vector<Tuple> el;
-  std::vector<std::string> enc;  // fresh-encoder bytes per element
+  std::vector<std::string> enc;      // fresh-encoder bytes per element
+  std::vector<char> have;            // 0 if the encoder crashed on the element
   std::vector<std::uint32_t> order;  // indices sorted in reference order
   std::uint64_t classes{0};
-  std::uint64_t enc_calls{0};
+  Part enc_part;                     // accounting of the encode phase
 };
 
-void domain_encode(Domain& d, int threads) {
-  d.enc.assign(d.el.size(), {});
-  std::vector<Acc> accs(static_cast<std::size_t>(threads));
-  parallel(threads, [&](int t) {
-    std::uint64_t calls = 0;
-    for (std::size_t i = static_cast<std::size_t>(t); i < d.el.size();
-         i += static_cast<std::size_t>(threads))
-      d.enc[i] = encode_fresh(d.el[i], calls);
-    accs[static_cast<std::size_t>(t)].transitions = calls;
+// Encode every element with a fresh encoder (contained). Case e = element e.
+void domain_encode(const Opt& o, Domain& d, const std::string& part_name) {
+  const std::size_t n = d.el.size();
+  d.enc.assign(n, {});
+  d.have.assign(n, 0);
+  const RangeFn fn = [&](std::uint64_t lo, std::uint64_t hi, Acc& acc, volatile std::uint64_t* prog) {
+    Writer w;
+    for (std::uint64_t e = lo; e < hi; ++e) {
+      *prog = e;
+      const std::string enc = encode_fresh(d.el[static_cast<std::size_t>(e)], acc.transitions);
+      w.u64(e);
+      w.str(enc);
+    }
+    acc.blob = std::move(w.b);
+  };
+  Contained res = run_contained(o.threads, n, clamp_slices(n, 128), fn);
+  for (auto& pc : res.pieces) {
+    Reader r{pc.acc.blob};
+    while (r.pos < pc.acc.blob.size()) {
+      const std::uint64_t e = r.u64();
+      std::string enc = r.str();
+      if (!r.ok || e >= n) die("bad encode-phase payload");
+      d.enc[static_cast<std::size_t>(e)] = std::move(enc);
+      d.have[static_cast<std::size_t>(e)] = 1;
+    }
+    pc.acc.blob.clear();
+  }
+  d.enc_part = Part{};
+  d.enc_part.name = part_name;
+  merge_into(d.enc_part, res.pieces);
+  account_crashes(o.property, d.label, d.enc_part, res, [&](std::uint64_t e) {
+    return "enc:" + tuple_str(d.el[static_cast<std::size_t>(e)]);
   });
-  d.enc_calls = 0;
-  for (auto& a : accs) d.enc_calls += a.transitions;
+  d.enc_part.checks = 0;  // encoding alone is not a check
 }
 
 // Sort in reference order (ties by index) and count the classes, cross-checking
@@ -1262,6 +1654,11 @@ inline bool prefix_ok(const Domain& d, std::size_t i, std::size_t j) {
 
 enum class PairCheck { order, prefix };
 
+std::string pair_replay(const Domain& d, PairCheck pc, std::size_t i, std::size_t j) {
+  return std::string(pc == PairCheck::order ? "order:" : "pf:") + tuple_str(d.el[i]) + ":" +
+         tuple_str(d.el[j]);
+}
+
 void pair_failed(const Domain& d, PairCheck pc, std::size_t i, std::size_t j, std::uint64_t k1,
                  std::uint64_t k2, bool failed, bool sample, Acc& acc) {
   if (failed) ++acc.vtotal;
@@ -1273,58 +1670,78 @@ void pair_failed(const Domain& d, PairCheck pc, std::size_t i, std::size_t j, st
   if (sample) acc.sample = g.sample;
   if (failed)
     record_generic(acc, g, k1, k2, pc == PairCheck::order ? "C11" : "C15", d.label,
-                   std::string(pc == PairCheck::order ? "order:" : "pf:") + tuple_str(d.el[i]) +
-                       ":" + tuple_str(d.el[j]));
+                   pair_replay(d, pc, i, j));
   else
     acc.transitions += g.calls;
 }
 
-// All ordered pairs (i, j), including i == j.
-Part all_pairs(const std::string& name, Domain& d, PairCheck pc, int threads) {
+// Combine the accounting of the encode phase and of the pair phase.
+void add_encode_phase(Part& part, const Domain& d) {
+  part.transitions += d.enc_part.transitions;
+  part.crashes += d.enc_part.crashes;
+  part.vtotal += d.enc_part.vtotal;
+  part.exhaustive = part.exhaustive && d.enc_part.exhaustive;
+  std::vector<Viol> all = d.enc_part.viols;
+  for (auto& v : part.viols) all.push_back(std::move(v));
+  if (all.size() > MAX_VIOL) all.resize(MAX_VIOL);
+  part.viols = std::move(all);
+}
+
+// All ordered pairs (i, j), including i == j. Case c = pair (c / n, c % n).
+Part all_pairs(const Opt& o, const std::string& name, Domain& d, PairCheck pc) {
   Part part;
   part.name = name;
   part.size = d.el.size();
-  part.transitions = d.enc_calls;
-  const std::size_t n = d.el.size();
-  std::vector<Acc> accs(static_cast<std::size_t>(threads));
-  const std::size_t si = n / 3, sj = (2 * n) / 3;
-  parallel(threads, [&](int t) {
-    Acc& acc = accs[static_cast<std::size_t>(t)];
-    for (std::size_t i = static_cast<std::size_t>(t); i < n; i += static_cast<std::size_t>(threads)) {
-      for (std::size_t j = 0; j < n; ++j) {
+  const std::uint64_t n = d.el.size();
+  const std::uint64_t si = n / 3, sj = (2 * n) / 3;
+  const RangeFn fn = [&](std::uint64_t lo, std::uint64_t hi, Acc& acc, volatile std::uint64_t* prog) {
+    std::uint64_t i = lo / n, j = lo % n;
+    for (std::uint64_t c = lo; c < hi; ++c) {
+      *prog = c;
+      if (d.have[i] && d.have[j]) {
         const bool ok = (pc == PairCheck::order) ? order_ok(d, i, j) : prefix_ok(d, i, j);
         ++acc.checks;
         const bool sample = (i == si && j == sj);
         if (!ok || sample) pair_failed(d, pc, i, j, i, j, !ok, sample, acc);
       }
+      if (++j == n) { j = 0; ++i; }
     }
+  };
+  Contained res = run_contained(o.threads, n * n, clamp_slices(n * n, 150000), fn);
+  merge_into(part, res.pieces);
+  account_crashes(o.property, d.label, part, res, [&](std::uint64_t c) {
+    return pair_replay(d, pc, static_cast<std::size_t>(c / n), static_cast<std::size_t>(c % n));
   });
-  merge_into(part, accs);
+  add_encode_phase(part, d);
   part.classes = d.classes;
   return part;
 }
 
 // Adjacent pairs of the reference-sorted order (decides all pairs of a totally
 // ordered domain; equal neighbours cover the equivalence classes).
-Part sorted_adjacent(const std::string& name, Domain& d, PairCheck pc, int threads) {
+Part sorted_adjacent(const Opt& o, const std::string& name, Domain& d, PairCheck pc) {
   Part part;
   part.name = name;
   part.size = d.el.size();
-  part.transitions = d.enc_calls;
-  const std::size_t n = d.order.size();
-  std::vector<Acc> accs(static_cast<std::size_t>(threads));
-  const std::size_t pairs = n ? n - 1 : 0;
-  parallel(threads, [&](int t) {
-    Acc& acc = accs[static_cast<std::size_t>(t)];
-    for (std::size_t p = static_cast<std::size_t>(t); p < pairs; p += static_cast<std::size_t>(threads)) {
+  const std::uint64_t n = d.order.size();
+  const std::uint64_t pairs = n ? n - 1 : 0;
+  const RangeFn fn = [&](std::uint64_t lo, std::uint64_t hi, Acc& acc, volatile std::uint64_t* prog) {
+    for (std::uint64_t p = lo; p < hi; ++p) {
+      *prog = p;
       const std::size_t i = d.order[p], j = d.order[p + 1];
+      if (!d.have[i] || !d.have[j]) continue;
       const bool ok = (pc == PairCheck::order) ? order_ok(d, i, j) : prefix_ok(d, i, j);
       ++acc.checks;
       const bool sample = (p == pairs / 2);
       if (!ok || sample) pair_failed(d, pc, i, j, p, 0, !ok, sample, acc);
     }
+  };
+  Contained res = run_contained(o.threads, pairs, clamp_slices(pairs, 256), fn);
+  merge_into(part, res.pieces);
+  account_crashes(o.property, d.label, part, res, [&](std::uint64_t p) {
+    return pair_replay(d, pc, d.order[p], d.order[p + 1]);
   });
-  merge_into(part, accs);
+  add_encode_phase(part, d);
   part.classes = d.classes;
   return part;
 }
@@ -1342,11 +1759,24 @@ Domain full_numeric_domain() {  // every value of an 8-bit type
   return d;
 }
 
-// Strings around the maximum length (lengths maxlen-2 .. maxlen+2).
-std::vector<std::string> around_maxlen_texts() {
+// Lengths of the long-text family: maxlen-2 .. maxlen+9 and lengths around and
+// beyond multiples of 65536 (a 16-bit length would wrap there).
+std::vector<std::size_t> long_text_lengths() {
+  std::vector<std::size_t> ls;
+  for (std::size_t L = MAXLEN - 2; L <= 65541; ++L) ls.push_back(L);  // 65530 .. 65541
+  ls.push_back(65536 + 65532);
+  ls.push_back(2 * 65536);
+  ls.push_back(2 * 65536 + 3);
+  ls.push_back(3 * 65536 - 1);
+  return ls;
+}
+
+// Long texts. Everything beyond offset maxlen is cut by the normalisation, so
+// members that differ only there must encode equal.
+std::vector<std::string> long_texts() {
   std::vector<std::string> out;
   const std::size_t M = MAXLEN;
-  for (std::size_t L = M - 2; L <= M + 2; ++L) {
+  for (const std::size_t L : long_text_lengths()) {
     out.emplace_back(L, '\x01');
     out.emplace_back(L, '\xFF');
     { std::string s(L, '\x01'); s[L - 1] = '\x02'; out.push_back(s); }   // differs in last byte only
@@ -1358,17 +1788,21 @@ std::vector<std::string> around_maxlen_texts() {
       s[p] = '\x02';
       out.push_back(s);
     }
+    if (L > M + 6) { std::string s(L, '\x01'); s[M + 5] = '\x02'; out.push_back(s); }  // beyond maxlen only
     { std::string s(L, '\x01'); s[L - 1] = '\0'; out.push_back(s); }               // one trailing pad
     { std::string s(L, '\x01'); s[L - 1] = '\0'; s[L - 2] = '\0'; out.push_back(s); }  // two
   }
+  out.emplace_back(65536, 'z');
   return out;
 }
 
 // All strings of length 0..6 over {01,02,FF}, each with 0..2 trailing pad
-// bytes, plus the strings around the maximum length.
+// bytes, "m" and "z", plus the long texts (spread evenly among the short ones
+// so that contiguous slices of the pair space cost about the same).
 Domain text_domain() {
   Domain d;
   d.label = "text";
+  std::vector<std::string> shorts;
   const char A[3] = {'\x01', '\x02', '\xFF'};
   for (int len = 0; len <= 6; ++len) {
     std::uint64_t total = 1;
@@ -1378,10 +1812,19 @@ Domain text_domain() {
       std::uint64_t x = idx;
       for (int i = 0; i < len; ++i) { s.push_back(A[x % 3]); x /= 3; }
       for (int pad = 0; pad <= 2; ++pad)
-        d.el.push_back(Tuple{make_text(s + std::string(static_cast<std::size_t>(pad), '\0'))});
+        shorts.push_back(s + std::string(static_cast<std::size_t>(pad), '\0'));
     }
   }
-  for (auto& s : around_maxlen_texts()) d.el.push_back(Tuple{make_text(s)});
+  shorts.emplace_back("m");
+  shorts.emplace_back("z");
+  const std::vector<std::string> longs = long_texts();
+  const std::size_t every = shorts.size() / longs.size();
+  std::size_t li = 0;
+  for (std::size_t i = 0; i < shorts.size(); ++i) {
+    d.el.push_back(Tuple{make_text(shorts[i])});
+    if ((i + 1) % every == 0 && li < longs.size()) d.el.push_back(Tuple{make_text(longs[li++])});
+  }
+  while (li < longs.size()) d.el.push_back(Tuple{make_text(longs[li++])});
   for (const auto& t : d.el)
     if (has_interior_zero(t[0].text)) die("text domain contains an interior zero byte");
   return d;
@@ -1396,6 +1839,13 @@ std::vector<Val> pool_short_text() {
 std::vector<Val> pool_long_text() {
   return {make_text(std::string(MAXLEN - 1, '\x01')), make_text(std::string(MAXLEN, '\x01')),
           make_text(std::string(MAXLEN + 1, '\x01'))};
+}
+// Texts made of the bytes that also occur in the text terminator (00, ff,
+// fa..fe): what makes a mis-aligned field readable as a different valid key.
+std::vector<Val> pool_terminator_text() {
+  return {make_text(""), make_text(std::string("\x00", 1)), make_text("\x01"), make_text("\xFF"),
+          make_text("\xFD"), make_text("\xFF\xFA"), make_text("\xFF\xFB"), make_text("\xFF\xFC"),
+          make_text("\xFF\xFD"), make_text("\xFF\xFE"), make_text(std::string("\xFF\xFD\x00", 3))};
 }
 std::vector<Val> pool_f32() {
   using L = std::numeric_limits<float>;
@@ -1446,11 +1896,22 @@ std::vector<Domain> tuple_domains() {
                                 num_of(std::int16_t{255}), num_of(std::int16_t{256}), num_of(std::int16_t{32767})};
   const std::vector<Val> u32 = {num_of(std::uint32_t{0}), num_of(std::uint32_t{1}), num_of(std::uint32_t{0x7FFFFFFFU}),
                                 num_of(std::uint32_t{0x80000000U}), num_of(std::uint32_t{0xFFFFFFFFU})};
+  // components whose encoding ends in 0x00, in front of terminator-like texts
+  const std::vector<Val> u16z = {num_of(std::uint16_t{0}), num_of(std::uint16_t{1}), num_of(std::uint16_t{0x00FF}),
+                                 num_of(std::uint16_t{0x0100}), num_of(std::uint16_t{0x0101}),
+                                 num_of(std::uint16_t{0x0200}), num_of(std::uint16_t{0xFF00}),
+                                 num_of(std::uint16_t{0xFFFF})};
+  const std::vector<Val> u8z = {num_of(std::uint8_t{0}), num_of(std::uint8_t{1}), num_of(std::uint8_t{0xFF})};
+  const std::vector<Val> f32z = {num_of(0.0F), num_of(-0.0F), num_of(1.0F), num_of(2.0F), num_of(-2.0F),
+                                 num_of(256.0F)};
+  const std::vector<Val> u32z = {num_of(std::uint32_t{0}), num_of(std::uint32_t{256}), num_of(std::uint32_t{65536}),
+                                 num_of(std::uint32_t{0x01000000U}), num_of(std::uint32_t{255})};
   const auto st = pool_short_text();
   auto st_long = st;
   for (auto& v : pool_long_text()) st_long.push_back(v);
   const std::vector<Val> st_tail = {make_text(""), make_text("\x01"), make_text("\xFF"),
                                     make_text(std::string("\x01\x00\x00", 3))};
+  const auto tt = pool_terminator_text();
   std::vector<Domain> out;
   out.push_back(product_domain({i32, st, i32}));
   out.push_back(product_domain({st_long, st}));
@@ -1459,6 +1920,9 @@ std::vector<Domain> tuple_domains() {
   out.push_back(product_domain({st, u16, st_tail}));
   out.push_back(product_domain({pool_f64(), st_long}));
   out.push_back(product_domain({i8, i16, u32}));
+  out.push_back(product_domain({u16z, tt, u8z}));
+  out.push_back(product_domain({f32z, tt, u8z}));
+  out.push_back(product_domain({u32z, tt}));
   return out;
 }
 
@@ -1479,23 +1943,29 @@ const std::vector<std::vector<Val>>& seq_tables() {
   }();
   return tab;
 }
+Val lead_text(int len) {
+  std::string s(static_cast<std::size_t>(len), 'a');
+  if (len > 0) s.back() = 'b';
+  return make_text(std::move(s));
+}
+
+// Family "growth": kind pattern x leading text x total length 1..80.
 constexpr int SEQ_PATTERNS = 11 + 11 * 4;
 const int SEQ_LEADS[] = {-1, 0, 100, 200, 245, 246, 247, 248, 249, 250, 251, 252, 253, 254, 255, 256,
                          300, 500, 505, 506, 507, 508, 509, 510, 511, 512, 1000, 1017, 1018, 1019,
                          1020, 1021, 1022, 1023, 1024, 70000};
 constexpr int SEQ_NLEADS = static_cast<int>(sizeof(SEQ_LEADS) / sizeof(SEQ_LEADS[0]));
 constexpr int SEQ_MAXN = 80;
+constexpr std::uint64_t SEQ_GROWTH_TOTAL = static_cast<std::uint64_t>(SEQ_PATTERNS) * SEQ_NLEADS * SEQ_MAXN;
 
-// Sequence number `pattern` / `lead` / n (1..80 components in total).
-Tuple make_seq(int pattern, int lead_idx, int n) {
+Tuple make_seq_growth(std::uint64_t s) {
+  const int n = static_cast<int>(s % SEQ_MAXN) + 1;
+  const int lead_idx = static_cast<int>((s / SEQ_MAXN) % SEQ_NLEADS);
+  const int pattern = static_cast<int>(s / SEQ_MAXN / SEQ_NLEADS);
   const auto& tab = seq_tables();
   Tuple t;
   const int lead = SEQ_LEADS[lead_idx];
-  if (lead >= 0) {
-    std::string s(static_cast<std::size_t>(lead), 'a');
-    if (lead > 0) s.back() = 'b';
-    t.push_back(make_text(std::move(s)));
-  }
+  if (lead >= 0) t.push_back(lead_text(lead));
   const int strides[4] = {1, 2, 3, 5};
   for (int i = 0; static_cast<int>(t.size()) < n; ++i) {
     int kind;
@@ -1507,6 +1977,85 @@ Tuple make_seq(int pattern, int lead_idx, int n) {
     const auto& tb = tab[static_cast<std::size_t>(kind)];
     t.push_back(tb[static_cast<std::size_t>(i * 7 + pattern * 3 + n) % tb.size()]);
   }
+  return t;
+}
+
+// Family "text-after-zero": a text (empty, pad-only, ...) directly after a
+// fixed-size component whose encoding ends in 0x00, at many buffer offsets.
+std::vector<int> taz_leads() {
+  std::vector<int> v = {-1, 0, 1, 100};
+  for (int l = 240; l <= 258; ++l) v.push_back(l);
+  for (int l = 505; l <= 512; ++l) v.push_back(l);
+  for (int l = 1017; l <= 1024; ++l) v.push_back(l);
+  return v;
+}
+std::vector<Val> taz_zero_enders() {
+  return {num_of(std::uint8_t{0}),       num_of(std::int8_t{-128}),       num_of(std::uint16_t{0x0100}),
+          num_of(std::uint16_t{0}),      num_of(std::int16_t{0}),         num_of(std::uint32_t{0x100}),
+          num_of(std::uint32_t{0x01000000U}), num_of(std::int32_t{0}),    num_of(std::uint64_t{0x0100}),
+          num_of(std::int64_t{0}),       num_of(1.0F),                    num_of(2.0F),
+          num_of(1.0),                   num_of(2.0)};
+}
+std::vector<Val> taz_texts() {
+  return {make_text(""), make_text(std::string("\x00", 1)), make_text(std::string("\x00\x00", 2)),
+          make_text("\x01"), make_text("\xFF\xFD"), make_text(std::string("\x01\x00", 2)),
+          make_text(std::string("\xFF\xFD\x00", 3))};
+}
+constexpr int TAZ_TRAILERS = 4;
+const int TAZ_REPS[4] = {2, 10, 40, 90};
+std::uint64_t taz_total() {
+  const std::uint64_t z = taz_zero_enders().size(), t = taz_texts().size();
+  return taz_leads().size() * z * t * TAZ_TRAILERS + 4 * z * t;
+}
+Tuple make_seq_taz(std::uint64_t s) {
+  static const std::vector<int> leads = taz_leads();
+  static const std::vector<Val> zs = taz_zero_enders();
+  static const std::vector<Val> ts = taz_texts();
+  const std::uint64_t single = leads.size() * zs.size() * ts.size() * TAZ_TRAILERS;
+  Tuple t;
+  if (s < single) {
+    const std::uint64_t tr = s % TAZ_TRAILERS; s /= TAZ_TRAILERS;
+    const Val& tx = ts[s % ts.size()]; s /= ts.size();
+    const Val& z = zs[s % zs.size()]; s /= zs.size();
+    const int lead = leads[static_cast<std::size_t>(s)];
+    if (lead >= 0) t.push_back(lead_text(lead));
+    t.push_back(z);
+    t.push_back(tx);
+    if (tr == 1) t.push_back(num_of(std::uint8_t{0}));
+    if (tr == 2) t.push_back(num_of(std::uint16_t{0xFFFA}));
+    if (tr == 3) t.push_back(make_text(""));
+    return t;
+  }
+  s -= single;  // repeated (zero-ender, text) pairs
+  const Val& tx = ts[s % ts.size()]; s /= ts.size();
+  const Val& z = zs[s % zs.size()]; s /= zs.size();
+  for (int i = 0; i < TAZ_REPS[s]; ++i) { t.push_back(z); t.push_back(tx); }
+  return t;
+}
+
+// Family "byte-at-capacity": an 8-bit component that starts exactly where the
+// buffer capacity ends (offsets 256, 512, 1024, 2048) after components of
+// another width, or after a text of the right length.
+const Kind BAC_FILL[9] = {K_U8, K_U16, K_I16, K_U32, K_I32, K_F32, K_U64, K_I64, K_F64};
+const std::size_t BAC_TARGET[4] = {256, 512, 1024, 2048};
+constexpr std::uint64_t BAC_TOTAL = (9 + 1) * 4 * 4 * 3;
+Tuple make_seq_bac(std::uint64_t s) {
+  const std::uint64_t tr = s % 3; s /= 3;
+  const std::uint64_t bi = s % 4; s /= 4;
+  const std::size_t target = BAC_TARGET[s % 4]; s /= 4;
+  Tuple t;
+  if (s < 9) {
+    const Kind k = BAC_FILL[s];
+    for (std::size_t i = 0; i * kind_size[k] < target; ++i)
+      t.push_back(make_num(k, 0x1122334455667788ULL + i * 0x0101010101010101ULL));
+  } else {
+    t.push_back(lead_text(static_cast<int>(target - TEXT_TERMINATOR)));
+  }
+  const Val bytes[4] = {num_of(std::uint8_t{0x5A}), num_of(std::uint8_t{0}), num_of(std::int8_t{-1}),
+                        num_of(std::int8_t{0x7F})};
+  t.push_back(bytes[bi]);
+  if (tr == 1) t.push_back(num_of(std::uint16_t{0x1234}));
+  if (tr == 2) t.push_back(make_text("\x01"));
   return t;
 }
 
@@ -1527,23 +2076,20 @@ std::uint64_t tuple_hash(const Tuple& t) {
   return h;
 }
 
-Part c12_sequences(const std::string& name, int threads) {
+// One family of component sequences. Case s = sequence make(s).
+Part seq_part(const Opt& o, const std::string& name, std::uint64_t total,
+              const std::function<Tuple(std::uint64_t)>& make) {
   Part part;
   part.name = name;
-  const std::uint64_t total = static_cast<std::uint64_t>(SEQ_PATTERNS) * SEQ_NLEADS * SEQ_MAXN;
   part.size = total;
-  std::vector<Acc> accs(static_cast<std::size_t>(threads));
-  std::vector<std::vector<std::uint64_t>> hashes(static_cast<std::size_t>(threads));
-  const std::uint64_t sample_at = total / 2 + 37;
-  parallel(threads, [&](int t) {
-    Acc& acc = accs[static_cast<std::size_t>(t)];
+  const std::uint64_t sample_at = total / 2 + 37 < total ? total / 2 + 37 : total / 2;
+  const RangeFn fn = [&](std::uint64_t lo, std::uint64_t hi, Acc& acc, volatile std::uint64_t* prog) {
     unodb::key_encoder reused;
-    for (std::uint64_t s = static_cast<std::uint64_t>(t); s < total; s += static_cast<std::uint64_t>(threads)) {
-      const int n = static_cast<int>(s % SEQ_MAXN) + 1;
-      const int lead = static_cast<int>((s / SEQ_MAXN) % SEQ_NLEADS);
-      const int pattern = static_cast<int>(s / SEQ_MAXN / SEQ_NLEADS);
-      const Tuple tup = make_seq(pattern, lead, n);
-      hashes[static_cast<std::size_t>(t)].push_back(tuple_hash(tup));
+    Writer w;
+    for (std::uint64_t s = lo; s < hi; ++s) {
+      *prog = s;
+      const Tuple tup = make(s);
+      w.u64(tuple_hash(tup));
       Gen g;
       g.want_sample = (s == sample_at);
       gen_check_seq(tup, reused, g);
@@ -1559,10 +2105,18 @@ Part c12_sequences(const std::string& name, int threads) {
         }
       }
     }
-  });
-  merge_into(part, accs);
+    acc.blob = std::move(w.b);
+  };
+  Contained res = run_contained(o.threads, total, clamp_slices(total, 64), fn);
   std::vector<std::uint64_t> all;
-  for (auto& h : hashes) all.insert(all.end(), h.begin(), h.end());
+  for (auto& pc : res.pieces) {
+    Reader r{pc.acc.blob};
+    while (r.pos < pc.acc.blob.size()) all.push_back(r.u64());
+    pc.acc.blob.clear();
+  }
+  merge_into(part, res.pieces);
+  account_crashes("C12", dom_of(name), part, res,
+                  [&](std::uint64_t s) { return "seq:" + tuple_str(make(s)); });
   std::sort(all.begin(), all.end());
   part.classes = static_cast<std::uint64_t>(std::unique(all.begin(), all.end()) - all.begin());
   return part;
@@ -1572,17 +2126,6 @@ Part c12_sequences(const std::string& name, int threads) {
 // Property runners
 // ---------------------------------------------------------------------------
 
-struct Opt {
-  std::string tier, out, only, replay, property;
-  int threads{16};
-  bool has_replay{false};
-};
-
-bool want(const Opt& o, const std::string& name) {
-  if (o.only.empty() || o.only == name) return true;
-  return name.rfind(o.only + "/", 0) == 0;
-}
-
 template <class T>
 void c11_numeric(const Opt& o, std::vector<Part>& parts, bool full_chain) {
   using U = typename Traits<T>::U;
@@ -1590,13 +2133,13 @@ void c11_numeric(const Opt& o, std::vector<Part>& parts, bool full_chain) {
   if (full_chain) {
     const std::string name = base + "/chain";
     if (!want(o, name)) return;
-    parts.push_back(c11_walk<T>(name, full_count<T>(),
-                                [](std::uint64_t r) { return full_rank_to_bits<T>(r); }, o.threads));
+    parts.push_back(c11_walk<T>(o, name, full_count<T>(),
+                                [](std::uint64_t r) { return full_rank_to_bits<T>(r); }));
   } else {
     const std::string name = base + "/sorted-adjacent";
     if (!want(o, name)) return;
     const std::vector<U> v = structured_domain<T>(o.tier == "thorough");
-    parts.push_back(c11_walk<T>(name, v.size(), [&v](std::uint64_t r) { return v[r]; }, o.threads));
+    parts.push_back(c11_walk<T>(o, name, v.size(), [&v](std::uint64_t r) { return v[r]; }));
   }
 }
 
@@ -1604,9 +2147,9 @@ void run_c11(const Opt& o, std::vector<Part>& parts) {
   const bool thorough = (o.tier == "thorough");
   auto pairs8 = [&](Domain d, const std::string& name) {
     if (!want(o, name)) return;
-    domain_encode(d, o.threads);
+    domain_encode(o, d, name);
     domain_sort(d);
-    parts.push_back(all_pairs(name, d, PairCheck::order, o.threads));
+    parts.push_back(all_pairs(o, name, d, PairCheck::order));
   };
   pairs8(full_numeric_domain<std::int8_t>(), "int8/all-pairs");
   pairs8(full_numeric_domain<std::uint8_t>(), "uint8/all-pairs");
@@ -1622,18 +2165,18 @@ void run_c11(const Opt& o, std::vector<Part>& parts) {
     const std::string name = thorough ? "text/all-pairs" : "text/sorted-adjacent";
     if (want(o, name)) {
       Domain d = text_domain();
-      domain_encode(d, o.threads);
+      domain_encode(o, d, name);
       domain_sort(d);
-      parts.push_back(thorough ? all_pairs(name, d, PairCheck::order, o.threads)
-                               : sorted_adjacent(name, d, PairCheck::order, o.threads));
+      parts.push_back(thorough ? all_pairs(o, name, d, PairCheck::order)
+                               : sorted_adjacent(o, name, d, PairCheck::order));
     }
   }
   for (auto& d : tuple_domains()) {
     const std::string name = d.label + "/all-pairs";
     if (!want(o, name)) continue;
-    domain_encode(d, o.threads);
+    domain_encode(o, d, name);
     domain_sort(d);
-    parts.push_back(all_pairs(name, d, PairCheck::order, o.threads));
+    parts.push_back(all_pairs(o, name, d, PairCheck::order));
   }
 }
 
@@ -1644,13 +2187,13 @@ void c12_numeric(const Opt& o, std::vector<Part>& parts, bool full) {
   if (full) {
     const std::string name = base + "/all-values";
     if (!want(o, name)) return;
-    parts.push_back(c12_walk<T>(name, full_count<T>(),
-                                [](std::uint64_t r) { return full_rank_to_bits<T>(r); }, o.threads));
+    parts.push_back(c12_walk<T>(o, name, full_count<T>(),
+                                [](std::uint64_t r) { return full_rank_to_bits<T>(r); }));
   } else {
     const std::string name = base + "/structured";
     if (!want(o, name)) return;
     const std::vector<U> v = structured_domain<T>(o.tier == "thorough");
-    parts.push_back(c12_walk<T>(name, v.size(), [&v](std::uint64_t r) { return v[r]; }, o.threads));
+    parts.push_back(c12_walk<T>(o, name, v.size(), [&v](std::uint64_t r) { return v[r]; }));
   }
 }
 
@@ -1666,23 +2209,26 @@ void run_c12(const Opt& o, std::vector<Part>& parts) {
   c12_numeric<std::int64_t>(o, parts, false);
   c12_numeric<std::uint64_t>(o, parts, false);
   c12_numeric<double>(o, parts, false);
-  if (want(o, "seq/growth")) parts.push_back(c12_sequences("seq/growth", o.threads));
+  if (want(o, "seq/growth")) parts.push_back(seq_part(o, "seq/growth", SEQ_GROWTH_TOTAL, make_seq_growth));
+  if (want(o, "seq/text-after-zero"))
+    parts.push_back(seq_part(o, "seq/text-after-zero", taz_total(), make_seq_taz));
+  if (want(o, "seq/byte-at-capacity"))
+    parts.push_back(seq_part(o, "seq/byte-at-capacity", BAC_TOTAL, make_seq_bac));
 }
 
 // C15: size bound and overload agreement for every element of the domains.
-Part c15_outsize(const std::string& name, const std::vector<const Domain*>& doms, int threads) {
+Part c15_outsize(const Opt& o, const std::string& name, const std::vector<const Domain*>& doms) {
   Part part;
   part.name = name;
   std::vector<const Tuple*> all;
   for (const auto* d : doms) for (const auto& t : d->el) all.push_back(&t);
   part.size = all.size();
-  std::vector<Acc> accs(static_cast<std::size_t>(threads));
-  parallel(threads, [&](int t) {
-    Acc& acc = accs[static_cast<std::size_t>(t)];
-    for (std::size_t i = static_cast<std::size_t>(t); i < all.size(); i += static_cast<std::size_t>(threads)) {
+  const RangeFn fn = [&](std::uint64_t lo, std::uint64_t hi, Acc& acc, volatile std::uint64_t* prog) {
+    for (std::uint64_t i = lo; i < hi; ++i) {
+      *prog = i;
       Gen g;
       g.want_sample = (i == all.size() / 2);
-      gen_check_outsize(*all[i], g);
+      gen_check_outsize(*all[static_cast<std::size_t>(i)], g);
       ++acc.checks;
       acc.transitions += g.calls;
       if (g.want_sample) acc.sample = g.sample;
@@ -1695,8 +2241,12 @@ Part c15_outsize(const std::string& name, const std::vector<const Domain*>& doms
         }
       }
     }
+  };
+  Contained res = run_contained(o.threads, all.size(), clamp_slices(all.size(), 128), fn);
+  merge_into(part, res.pieces);
+  account_crashes("C15", "text", part, res, [&](std::uint64_t i) {
+    return "osz:" + tuple_str(*all[static_cast<std::size_t>(i)]);
   });
-  merge_into(part, accs);
   part.classes = 0;  // classes are counted by the pair parts
   return part;
 }
@@ -1712,88 +2262,96 @@ std::vector<std::string> guard_contents() {
   c.emplace_back(M, '\0');
   return c;
 }
-const std::uint64_t GUARD_NOMINALS[] = {MAXLEN + 1, MAXLEN + 2, MAXLEN + 100, MAXLEN + 4096,
-                                        std::uint64_t{1} << 20, std::uint64_t{1} << 31};
+// Nominal lengths: maxlen+1 .. maxlen+9, around and beyond multiples of 65536,
+// and large ones.
+std::vector<std::uint64_t> guard_nominals() {
+  std::vector<std::uint64_t> v;
+  for (std::uint64_t n = MAXLEN + 1; n <= 65541; ++n) v.push_back(n);
+  for (const std::uint64_t n : {MAXLEN + 100, MAXLEN + 4096, std::uint64_t{65536 + 65532},
+                                std::uint64_t{2 * 65536}, std::uint64_t{2 * 65536 + 3},
+                                std::uint64_t{3 * 65536 - 1}, std::uint64_t{1} << 20,
+                                std::uint64_t{1} << 31})
+    v.push_back(n);
+  return v;
+}
 
-Part c15_guard(const std::string& name) {  // main thread only
+Part c15_guard(const Opt& o, const std::string& name) {
   Part part;
   part.name = name;
-  Acc acc;
-  std::uint64_t idx = 0;
   const auto contents = guard_contents();
+  const auto nominals = guard_nominals();
   part.size = contents.size();
-  for (const auto& c : contents)
-    for (const auto nominal : GUARD_NOMINALS)
-      for (int sv = 0; sv < 2; ++sv) {
-        Gen g;
-        g.want_sample = (idx == 0);
-        gen_check_guard(c, nominal, sv != 0, g);
-        ++acc.checks;
-        acc.transitions += g.calls;
-        if (g.want_sample) acc.sample = g.sample;
-        if (!g.out.empty()) {
-          ++acc.vtotal;
-          for (auto& v : g.out) {
-            if (!acc.want_more()) break;
-            v.k1 = idx;
-            acc.viols.push_back(std::move(v));
-          }
+  const std::uint64_t per = nominals.size() * 2;
+  const std::uint64_t total = contents.size() * per;
+  auto replay_of = [&](std::uint64_t idx) {
+    return "guard:" + rle_of(contents[static_cast<std::size_t>(idx / per)]) + ":" +
+           std::to_string(nominals[static_cast<std::size_t>((idx % per) / 2)]) + ":" +
+           ((idx % 2) ? "sv" : "span");
+  };
+  const RangeFn fn = [&](std::uint64_t lo, std::uint64_t hi, Acc& acc, volatile std::uint64_t* prog) {
+    for (std::uint64_t idx = lo; idx < hi; ++idx) {
+      *prog = idx;
+      Gen g;
+      g.want_sample = (idx == 0);
+      gen_check_guard(contents[static_cast<std::size_t>(idx / per)],
+                      nominals[static_cast<std::size_t>((idx % per) / 2)], (idx % 2) != 0, g);
+      ++acc.checks;
+      acc.transitions += g.calls;
+      if (g.want_sample) acc.sample = g.sample;
+      if (!g.out.empty()) {
+        ++acc.vtotal;
+        for (auto& v : g.out) {
+          if (!acc.want_more()) break;
+          v.k1 = idx;
+          acc.viols.push_back(std::move(v));
         }
-        ++idx;
       }
-  std::vector<Acc> accs;
-  accs.push_back(std::move(acc));
-  merge_into(part, accs);
+    }
+  };
+  Contained res = run_contained(o.threads, total, contents.size(), fn);
+  merge_into(part, res.pieces);
+  account_crashes("C15", "text", part, res, replay_of);
   return part;
 }
 
 void run_c15(const Opt& o, std::vector<Part>& parts) {
   Domain text = text_domain();
   std::vector<Domain> tuples = tuple_domains();
-  bool text_encoded = false;
   if (want(o, "text/all-pairs")) {
-    domain_encode(text, o.threads);
+    domain_encode(o, text, "text/all-pairs");
     domain_sort(text);
-    text_encoded = true;
-    parts.push_back(all_pairs("text/all-pairs", text, PairCheck::prefix, o.threads));
+    parts.push_back(all_pairs(o, "text/all-pairs", text, PairCheck::prefix));
   }
-  (void)text_encoded;
   for (auto& d : tuples) {
     const std::string name = d.label + "/all-pairs";
     if (!want(o, name)) continue;
-    domain_encode(d, o.threads);
+    domain_encode(o, d, name);
     domain_sort(d);
-    parts.push_back(all_pairs(name, d, PairCheck::prefix, o.threads));
+    parts.push_back(all_pairs(o, name, d, PairCheck::prefix));
   }
   if (want(o, "text/output-size")) {
     std::vector<const Domain*> doms{&text};
     for (const auto& d : tuples) doms.push_back(&d);
-    parts.push_back(c15_outsize("text/output-size", doms, o.threads));
+    parts.push_back(c15_outsize(o, "text/output-size", doms));
   }
-  if (want(o, "text/guard-page")) parts.push_back(c15_guard("text/guard-page"));
+  if (want(o, "text/guard-page")) parts.push_back(c15_guard(o, "text/guard-page"));
 }
 
 // ---------------------------------------------------------------------------
 // Replay of one case
 // ---------------------------------------------------------------------------
 
-Part run_replay(const Opt& o) {
-  Part part;
-  part.name = "replay";
-  part.size = 1;
-  part.checks = 1;
-  const auto f = split(o.replay, ':');
-  Gen g;
-  g.want_sample = true;
+// Evaluate the case named by a replay argument (runs inside a worker).
+void eval_replay(const std::string& property, const std::string& replay, Gen& g) {
+  const auto f = split(replay, ':');
   const std::string& what = f[0];
   auto need = [&](std::size_t n, const char* prop) {
-    if (f.size() != n) die("replay arg has the wrong number of fields: " + o.replay);
-    if (o.property != prop) die("replay arg '" + what + "' belongs to property " + prop);
+    if (f.size() != n) die("replay arg has the wrong number of fields: " + shorten(replay));
+    if (prop != nullptr && property != prop) die("replay arg '" + what + "' belongs to property " + prop);
   };
   if (what == "order") {
     need(3, "C11");
     gen_check_order(tuple_parse(f[1]), tuple_parse(f[2]), g);
-    part.size = 2;
   } else if (what == "rt") {
     need(2, "C12");
     const Tuple t = tuple_parse(f[1]);
@@ -1802,30 +2360,54 @@ Part run_replay(const Opt& o) {
     gen_check_roundtrip(t[0], re, g);
   } else if (what == "seq") {
     need(2, "C12");
-    // same kind of reused encoder as the enumeration: one that grew earlier
     unodb::key_encoder reused;
-    const std::string big(70000, 'a');
-    reused.encode_text(as_span(big.data(), big.size()));
     gen_check_seq(tuple_parse(f[1]), reused, g);
   } else if (what == "pf") {
     need(3, "C15");
     gen_check_prefix(tuple_parse(f[1]), tuple_parse(f[2]), g);
-    part.size = 2;
   } else if (what == "osz") {
     need(2, "C15");
     gen_check_outsize(tuple_parse(f[1]), g);
+  } else if (what == "enc") {  // encode only: a finding only if the encoder crashes
+    need(2, nullptr);
+    const std::string e = encode_fresh(tuple_parse(f[1]), g.calls);
+    if (g.want_sample) g.sample = JObj{}.str("key", f[1]).num("enc_size", e.size()).str("enc", hex_of(e)).done();
   } else if (what == "guard") {
     need(4, "C15");
     if (f[3] != "sv" && f[3] != "span") die("guard overload must be sv or span");
     gen_check_guard(rle_parse(f[1]), std::strtoull(f[2].c_str(), nullptr, 10), f[3] == "sv", g);
   } else {
-    die("unknown replay arg: " + o.replay);
+    die("unknown replay arg: " + shorten(replay));
   }
-  part.transitions = g.calls;
+}
+
+// Domain label of the case named by a replay argument (for crash signatures).
+std::string replay_dom(const std::string& replay) {
+  const auto f = split(replay, ':');
+  if (f[0] == "seq") return "seq";
+  if (f[0] == "guard") return "text";
+  if (f.size() < 2) die("bad replay arg");
+  return schema_label(tuple_parse(f[1]));
+}
+
+Part run_replay(const Opt& o) {
+  Part part;
+  part.name = "replay";
+  part.size = (o.replay.rfind("order:", 0) == 0 || o.replay.rfind("pf:", 0) == 0) ? 2 : 1;
+  part.checks = 1;
   part.classes = 1;
-  part.sample = g.sample;
-  part.vtotal = g.out.empty() ? 0 : 1;
-  part.viols = std::move(g.out);
+  const std::string dom = replay_dom(o.replay);  // also validates the syntax in the parent
+  Single s = run_single(o.property, o.replay);
+  if (s.crashed) {
+    part.crashes = 1;
+    part.vtotal = 1;
+    part.viols.push_back(crash_viol(o.property, dom, o.replay, crash_cause(s.crash), true, 0));
+    return part;
+  }
+  part.transitions = s.acc.transitions;
+  part.sample = s.acc.sample;
+  part.vtotal = s.acc.vtotal;
+  part.viols = std::move(s.acc.viols);
   return part;
 }
 
@@ -1839,41 +2421,61 @@ const char* rule_of(const std::string& p) {
            "enc a, enc b)) == sign(independent bytewise compare) == reference compare (integer compare; IEEE "
            "order with -0 < +0 and all NaNs equal and greatest; bytewise order of text cut to maxlen with trailing "
            "zero padding removed; lexicographic on tuples). distinct_nontrivial = number of distinct "
-           "reference-order classes, counted per part as 1 + number of strictly ascending neighbour steps.";
+           "reference-order classes, counted per part as 1 + number of strictly ascending neighbour steps. "
+           "All calls into the code under test run in forked workers; a worker death is a '.../crash' violation.";
   if (p == "C12")
     return "Exhaustive enumeration, no sampling. Numeric parts: every listed value x is encoded by a fresh encoder "
            "(size must equal sizeof(T)), decoded (bits must equal x; any NaN must give a quiet NaN with the one "
            "bit pattern that decode(encode(quiet_NaN)) gives), and re-encoded by an encoder reused after reset() "
            "and by one that had grown to a heap buffer before reset() (bytes must equal the fresh ones). "
-           "seq/growth: 55 kind patterns x 36 leading text lengths x 1..80 components; fresh and reused encoder "
-           "output must equal the concatenation of individually encoded components and the decoder must return "
-           "every numeric component in order. distinct_nontrivial = number of distinct values (numeric parts: "
-           "neighbours of the duplicate-free sorted domain that differ; sequences: distinct content hashes).";
+           "seq/* parts: deterministic families of component sequences (kind patterns x leading text lengths x "
+           "1..80 components; texts directly after components ending in 0x00 at many offsets; 8-bit components "
+           "starting exactly at a capacity boundary); fresh and reused encoder output must equal the concatenation "
+           "of individually encoded components and the decoder must return every numeric component in order. "
+           "distinct_nontrivial = number of distinct values (numeric parts: values differing from their "
+           "predecessor in the duplicate-free walk; sequences: distinct content hashes). "
+           "All calls into the code under test run in forked workers; a worker death is a '.../crash' violation.";
   return "Exhaustive enumeration, no sampling. all-pairs parts: for every ordered pair of keys of one schema the "
          "encodings are byte-equal exactly when the components are equal after normalisation (text cut to maxlen, "
          "trailing zero padding removed; NaNs unified; -0 and +0 distinct), and otherwise neither encoding is a "
          "proper prefix of the other. text/output-size: every key of every domain is at most sizeof(T) resp. "
          "maxlen+3 bytes per component and both encode_text overloads agree. text/guard-page: maxlen bytes of "
-         "input end at a PROT_NONE page and are passed with a nominal length > maxlen; a fault is a violation. "
-         "distinct_nontrivial = number of distinct normalised-equality classes over the pair parts.";
+         "input end at a PROT_NONE region and are passed with a nominal length > maxlen; a fault is a violation. "
+         "distinct_nontrivial = number of distinct normalised-equality classes over the pair parts. "
+         "All calls into the code under test run in forked workers; a worker death is a '.../crash' violation.";
 }
 
+// The bit pattern the library's decoder produces for NaN, determined by a
+// round trip of quiet_NaN (in a worker; falls back to quiet_NaN's own bits).
 void init_canonical_nans() {
-  {
-    unodb::key_encoder e;
-    e.encode(std::numeric_limits<float>::quiet_NaN());
-    unodb::key_decoder d{e.get_key_view()};
-    float y;
-    d.decode(y);
-    g_canon_nan[K_F32] = to_bits(y);
-  }
-  {
-    unodb::key_encoder e;
-    e.encode(std::numeric_limits<double>::quiet_NaN());
-    unodb::key_decoder d{e.get_key_view()};
-    double y;
-    d.decode(y);
-    g_canon_nan[K_F64] = to_bits(y);
+  g_canon_nan[K_F32] = to_bits(std::numeric_limits<float>::quiet_NaN());
+  g_canon_nan[K_F64] = to_bits(std::numeric_limits<double>::quiet_NaN());
+  const RangeFn fn = [](std::uint64_t, std::uint64_t, Acc& acc, volatile std::uint64_t* prog) {
+    *prog = 0;
+    Writer w;
+    {
+      unodb::key_encoder e;
+      e.encode(std::numeric_limits<float>::quiet_NaN());
+      unodb::key_decoder d{e.get_key_view()};
+      float y;
+      d.decode(y);
+      w.u64(to_bits(y));
+    }
+    {
+      unodb::key_encoder e;
+      e.encode(std::numeric_limits<double>::quiet_NaN());
+      unodb::key_decoder d{e.get_key_view()};
+      double y;
+      d.decode(y);
+      w.u64(to_bits(y));
+    }
+    acc.blob = std::move(w.b);
+  };
+  Contained res = run_contained(1, 1, 1, fn);
+  if (res.pieces.size() == 1 && res.pieces[0].acc.blob.size() == 16) {
+    Reader r{res.pieces[0].acc.blob};
+    g_canon_nan[K_F32] = r.u64();
+    g_canon_nan[K_F64] = r.u64();
   }
 }
 
@@ -1922,7 +2524,7 @@ int main(int argc, char** argv) {
   }
   if (parts.empty()) die("no part matches --only " + o.only);
 
-  std::uint64_t evaluations = 0, classes = 0, states = 0, transitions = 0, vtotal = 0;
+  std::uint64_t evaluations = 0, classes = 0, states = 0, transitions = 0, vtotal = 0, crashes = 0;
   bool exhaustive = true;
   std::vector<const Viol*> viols;
   std::vector<std::string> samples;
@@ -1932,9 +2534,25 @@ int main(int argc, char** argv) {
     states += p.size;
     transitions += p.transitions;
     vtotal += p.vtotal;
+    crashes += p.crashes;
     exhaustive = exhaustive && p.exhaustive;
-    for (const auto& v : p.viols)
-      if (viols.size() < MAX_VIOL) viols.push_back(&v);
+  }
+  {  // at most MAX_VIOL reported: one from each failing part in turn (part order,
+     // each part's own deterministic order), so that no failing part is hidden
+    std::vector<std::vector<const Viol*>> chosen(parts.size());
+    std::size_t total = 0;
+    for (std::size_t round = 0; total < MAX_VIOL; ++round) {
+      bool any = false;
+      for (std::size_t i = 0; i < parts.size() && total < MAX_VIOL; ++i) {
+        if (round < parts[i].viols.size()) {
+          chosen[i].push_back(&parts[i].viols[round]);
+          ++total;
+          any = true;
+        }
+      }
+      if (!any) break;
+    }
+    for (const auto& c : chosen) for (const Viol* v : c) viols.push_back(v);
   }
   {  // up to 5 samples spread over the parts
     std::vector<const Part*> with;
@@ -1957,6 +2575,7 @@ int main(int argc, char** argv) {
   js += "  \"traces_validated_against_impl\": " + std::to_string(evaluations) + ",\n";
   js += "  \"rule\": " + jstr(rule_of(o.property)) + ",\n";
   js += "  \"maxlen\": " + std::to_string(MAXLEN) + ",\n";
+  js += "  \"crashes\": " + std::to_string(crashes) + ",\n";
   if (o.has_replay) js += "  \"replay_arg\": " + jstr(o.replay) + ",\n";
   if (!o.only.empty()) js += "  \"only\": " + jstr(o.only) + ",\n";
   js += "  \"samples\": [";
@@ -1968,7 +2587,8 @@ int main(int argc, char** argv) {
     js += std::string(i ? ",\n    " : "\n    ") +
           JObj{}.str("name", p.name).num("size", p.size).num("checks", p.checks)
               .boolean("exhaustive", p.exhaustive).num("classes", p.classes)
-              .num("transitions", p.transitions).num("violations", p.vtotal).done();
+              .num("transitions", p.transitions).num("violations", p.vtotal)
+              .num("crashes", p.crashes).done();
   }
   js += "\n  ],\n";
   js += "  \"violations\": [";
